@@ -199,9 +199,10 @@ def gen_case(seed: int, prop: str, tier: str, kind: str | None = None) -> dict:
     case["cops"] = cops
     case["share_obj"] = rng.random() < 0.5
     case["reopen"] = rng.random() < 0.3
-    if rng.random() < 0.2 and cops and not case.get("fault"):
+    if rng.random() < 0.3 and cops and not case.get("fault"):
         case["eio"] = {str(rng.randrange(len(cops))): rng.choice([1, 1, 2, 3, 5, 8]) for _ in range(rng.choice([2, 3, 5]))}
         case["eio_kind"] = rng.choice(["eio", "eio", "eio_partial", "short_meta", "short_meta"])
+        case["eio_warm"] = case["eio_kind"] != "short_meta" and rng.random() < 0.65  # cold: first loads meet the fault; warm: trace-guided
     return case
 
 
@@ -686,7 +687,7 @@ def run_case(case: dict) -> RunResult:
             warm_reads = []
             # with a fault: first the request without one (buffers and caches of every layer are warm and positioned), then with the
             # fault armed, then once more without
-            for attempt_no, attempt in enumerate((None, arm, None) if arm else (None,)):
+            for attempt_no, attempt in enumerate(((None, arm, None) if case.get("eio_warm") else (arm, None)) if arm else (None,)):
                 fired0 = world.io_faults_fired()
                 reads0 = [h.reads for _, h in world.handles]
                 if attempt:
@@ -697,7 +698,7 @@ def run_case(case: dict) -> RunResult:
                     pairs = [(hi, j) for hi, n_reads in enumerate(warm_reads) for j in range(1, min(n_reads, 6) + 1)]
                     # a fault on a later read of a multi-read request leaves more in-flight state behind than one on the first
                     pairs += [pr for pr in pairs if pr[1] >= 2] * 2
-                    if pairs:
+                    if pairs and case.get("eio_warm"):
                         hi, j = pairs[(attempt * 7919 + case["seed"]) % len(pairs)]
                         h = world.handles[hi][1]
                         h.eio_at, h.fault_kind = h.reads + j, case.get("eio_kind", "eio")
@@ -714,13 +715,13 @@ def run_case(case: dict) -> RunResult:
                             off, ln = op[2] * sector, op[3] * sector
                             got = rs_fn(s, op[2], op[3])
                     world.disarm_io_faults()
-                    if arm and attempt_no == 0:
+                    if arm and attempt is None and attempt_no == 0:
                         warm_reads = [h.reads - (reads0[i] if i < len(reads0) else 0) for i, (_, h) in enumerate(world.handles)]
-                    if arm and attempt_no < 2:
+                    if arm and attempt_no < (2 if case.get("eio_warm") else 1):
                         want0 = view.expected(off, ln)
                         if got != want0:
                             i = first_mismatch(got, want0) if len(got) == len(want0) else -1
-                            viol = v("mismatch" if i >= 0 else "short", f"{op} ({'before' if attempt_no == 0 else 'while'} an injected {case.get('eio_kind', 'eio')}): "
+                            viol = v("mismatch" if i >= 0 else "short", f"{op} ({'while' if attempt else 'before'} an injected {case.get('eio_kind', 'eio')}): "
                                                                         f"returned bytes differ from the view's content" + (f" at +{i}" if i >= 0 else f" in length ({len(got)} vs {len(want0)})"))
                             break
                         continue
